@@ -211,7 +211,15 @@ func init() {
 			}
 			c15Fill(db, rows)
 			for k := 0; k < 6; k++ {
-				c := c15Case{Rows: rows, Calls: genLimCalls(rng, 4, false), Batch: 1 + rng.Intn(maxN/2+2)}
+				// Limit(0) is the pattern of finding F7c: avoided while the tree has the finding (the findings suite
+				// probes it), ordinary input once the regenerated fact says the early return is present
+				c := c15Case{Rows: rows, Calls: genLimCalls(rng, 4, c15Facts().ZeroLimitReturn), Batch: 1 + rng.Intn(maxN/2+2)}
+				if c15Facts().ZeroLimitReturn && rng.Intn(8) == 0 {
+					c.Calls = []limCall{{"limit", 0}}
+					if rng.Intn(2) == 0 {
+						c.Calls = append(c.Calls, limCall{"offset", rng.Intn(4)})
+					}
+				}
 				c15Run(db, rec, &c)
 				cases = append(cases, c)
 				ops = append(ops, []interface{}{"batches", rows, callsJ(c.Calls), c.Batch})
@@ -230,6 +238,11 @@ func init() {
 			}
 			r.Case("batches", canon(in), nb > 1)
 			r.H("batches.count", fmt.Sprint(nb))
+			if lim, _ := realLimit(c.Calls); lim == 0 {
+				r.H("batches.limit", "effective LIMIT 0")
+			} else {
+				r.H("batches.limit", "other")
+			}
 			r.H("batches.tablesize", fmt.Sprint(len(c.Rows)/5*5, "+"))
 			if i%97 == 0 {
 				r.Sample(map[string]interface{}{"suite": "batches", "input": in, "real": c.real})
